@@ -45,7 +45,7 @@ def check_state(run: ir.MgRun, ref: ir.RefRun, objs, consts, after):
             else:
                 if t.base is not run.env.get(o):
                     return Mismatch("base", f"after stmt {after}: h{h}.base is not the owner tensor h{o} "
-                                            f"(base is {'None' if t.base is None else 'another tensor'})")
+                                            f"(base is {'None' if t.base is None else 'another tensor'})", h=h)
     for i, h1 in enumerate(hs):
         for h2 in hs[i + 1:]:
             a1, a2 = ref.env[h1], ref.env[h2]
@@ -97,10 +97,10 @@ def diff_snapshot(s1, s2):
     return None
 
 
-def run_lockstep(prog, check_each=True, stop_before=None):
+def run_lockstep(prog, check_each=True, stop_before=None, flag_views="grad"):
     """Returns (mgrun, refrun, mismatch)."""
     run = ir.MgRun(prog)
-    ref = ir.RefRun(prog)
+    ref = ir.RefRun(prog, flag_views=flag_views)
     mg = run.mg
     objs, consts = {}, {}
     for idx, st in enumerate(prog["stmts"]):
